@@ -161,8 +161,14 @@ Values(evs) == FoldLeft(BStep, BInit, evs).out
 (*   "fffd"      JSON replaces invalid UTF-8 by U+FFFD                     *)
 (*   "nonfin"    non-finite floats may be written as null                  *)
 (*   "ubjH"      UBJSON carries integers above MaxInt64 as decimal strings *)
+(*   "nan"       NaN payloads are not compared (Go values pass through      *)
+(*               reflect's float64 view, which quietens signalling NaNs)    *)
 (* Integer width, announced lengths and element types are not part of a    *)
 (* value at all (Builder drops them).                                      *)
+IsNaN64(bits) == Len(bits) = 8 /\ (bits[1] % 128) = 127 /\ bits[2] >= 240
+                 /\ (bits[2] > 240 \/ \E j \in 3..8 : bits[j] > 0)
+IsNaN32(bits) == Len(bits) = 4 /\ (bits[1] % 128) = 127 /\ bits[2] >= 128
+                 /\ (bits[2] > 128 \/ bits[3] > 0 \/ bits[4] > 0)
 IsNonFinite64(bits) == Len(bits) = 8 /\ (bits[1] % 128) = 127 /\ bits[2] >= 240
 IsNonFinite32(bits) == Len(bits) = 4 /\ (bits[1] % 128) = 127 /\ bits[2] >= 128
 
@@ -174,10 +180,12 @@ LeafEq(R, a, b) ==
                        \/ "ubjH" \in R /\ b.k = "str" /\ CAboveMaxInt64(a.v) /\ AllDigits(b.v)
                           /\ CFromDec(FALSE, DigitsOf(b.v)) = a.v
     [] a.k = "f64"  -> \/ b.k = "f64" /\ a.v = b.v
+                       \/ "nan" \in R /\ b.k = "f64" /\ IsNaN64(a.v) /\ IsNaN64(b.v)
                        \/ "f2i" \in R /\ b.k = "int" /\ (a.i = b.v \/ (b.i # <<>> /\ b.i = a.v))
                        \/ "f2i" \in R /\ b.k = "f64" /\ a.i # <<>> /\ a.i = b.i
                        \/ "nonfin" \in R /\ IsNonFinite64(a.v) /\ b.k = "nil"
     [] a.k = "f32"  -> \/ b.k = "f32" /\ a.v = b.v
+                       \/ "nan" \in R /\ b.k = "f32" /\ IsNaN32(a.v) /\ IsNaN32(b.v)
                        \/ "f2i" \in R /\ b.k = "int" /\ (a.i = b.v \/ (b.s # <<>> /\ b.s = a.v))
                        \/ "f32as64" \in R /\ b.k = "f64" /\ b.s = a.v
                        \/ "nonfin" \in R /\ IsNonFinite32(a.v) /\ b.k = "nil"
